@@ -70,6 +70,18 @@ def stamp(x):
   return [x, n]
 
 
+def nothing(x):
+  """Stateful, evaluates to None (an initialiser that is run for its effect).
+
+  None is a value like any other: cached, it is computed once; held through a
+  handle, it dereferences to None.
+  """
+  n = STATE['n']
+  STATE['n'] = n + 1
+  _log('nothing', x, n)
+  return None
+
+
 def first(x):
   _log('first', x)
   return x[0]
